@@ -611,6 +611,8 @@ def build_program(rng: random.Random, k: int) -> Prog:
                     cands = [x for x in d.nested if isinstance(x, kind)]
                     if cands and r.random() < 0.7 and not any(x.name == new for x in d.nested):
                         cands[0].name = new
+                        if kind is G.EnumDef:  # member names are scoped by the enclosing message too
+                            cands[0].members = [(f"KIND_V{chr(65 + i)}", v) for i, (_, v) in enumerate(cands[0].members)]
                         n_shared += 1
         if n_shared >= 2:
             feats.add("same-nested-name-in-different-parents")
@@ -865,6 +867,13 @@ def c_check(env: Env, outdir: str, main_hdr: Optional[str], optimize: bool, cfg:
                              "cmd": f"gcc -c -Werror=implicit-function-declaration -I. -I{LIBC} {s}"})
         else:
             objs.append(s[:-2] + ".o")
+            if optimize:  # the other half of the generated text: the big-endian branch
+                rc, _, err = run_tool(["gcc", "-fsyntax-only", "-DBP_BIG_ENDIAN", "-Werror=implicit-function-declaration"] + inc + [s], outdir)
+                stats["gcc-syntax-BE"] = stats.get("gcc-syntax-BE", 0) + 1
+                if rc != 0:
+                    failed = True
+                    findings.append({"cfg": cfg, "kind": "gcc-error", "file": s, "detail": err[:1500],
+                                     "cmd": f"gcc -fsyntax-only -DBP_BIG_ENDIAN -Werror=implicit-function-declaration -I. -I{LIBC} {s}"})
     scan = c_scan(outdir, hdrs, srcs)
     for (kind, n) in scan["dups"]:
         findings.append({"cfg": cfg, "kind": "c-duplicate", "file": "*", "name": n, "detail": f"{kind} {n} declared more than once in the output set"})
